@@ -118,8 +118,7 @@ def classify(prop, item, why):
         spine, leaf = item[0], item[1]
         forms = sorted(set(spine))
         return ("C01", "program", "+".join(forms), re.sub(r"[0-9]+", "N", why.split(":")[0])[:60], "any")
-    s, kind, ctx = item
-    return ("C15", "expression", gen15.describe(item)[:80], re.sub(r"[0-9]+", "N", why.split(":")[0])[:60], "any")
+    return (prop, "program", family(prop).describe(item)[:80], re.sub(r"[0-9]+", "N", why.split(":")[0])[:60], "any")
 
 
 def known_match(known, prop, item, v):
@@ -154,6 +153,11 @@ def main():
     except V.Inconclusive as e:
         log("INCONCLUSIVE:", e)
         print("INCONCLUSIVE property=%s reason=%s" % (prop, str(e)[:400].replace("\n", " ")))
+        return V.EXIT_INCONCLUSIVE
+    except Exception as e:   # noqa - a defect of the checker itself is never a verdict
+        import traceback
+        traceback.print_exc()
+        print("INCONCLUSIVE property=%s reason=checker error %s: %s" % (prop, type(e).__name__, str(e)[:300].replace("\n", " ")))
         return V.EXIT_INCONCLUSIVE
 
 
